@@ -122,23 +122,23 @@ PROPS = {
     "C16": dict(
         level="other",
         technique="per-operation partition contracts on BumpBox<[T]>::{split_off,split_at,split_first,split_last,split_off_first,split_off_last,merge}, FixedBumpVec::{split_off,split_at_spare}, BumpBox<str>::split_off checked by Kani; independence of the parts = the sub-block preconditions of the C01/C02/C13 realloc/deallocate contracts",
-        claim="split_at / split_first / split_last / split_off_first / split_off_last / split_at_spare on a symbolic slice or fixed vector (len<=4, cap 5): parts adjacent and in order, lengths (and capacity) add up, every element in its place, None only when empty; merge of adjacent parts restores the whole (address, length, elements) and merge of non-adjacent parts never returns. split_off (BumpBox<[T]> and FixedBumpVec incl. capacity arithmetic): for EVERY range of every length 3..6 the part is the range in order, the rest keeps its order, lengths/capacities add up, buffers disjoint and inside the original (concrete length and range, symbolic element values); BumpBox<str>::split_off at every boundary of two-character texts. Independence of parts afterwards is an instance of the C01/C02/C13 contracts, which are proved (bounded) for ANY sub-block of the allocated region, not only for blocks an allocation call returned.",
-        note="partition, into_flattened, map_in_place and BumpVec/BumpString::split_off are NOT under contract; split_off with a SYMBOLIC range is out of reach: CBMC did not finish slice::rotate_* within 10 minutes even for len 3 (measured); FixedBumpVec::split_off capacity arithmetic likewise.",
-        not_covered=["partition, into_flattened, map_in_place, BumpVec/BumpString::split_off", "lengths above 6", "zero-sized elements", "follow-up operation sequences beyond the sub-block argument"],
+        claim="split_at / split_first / split_last / split_off_first / split_off_last / split_at_spare on a symbolic slice or fixed vector (len<=4, cap 5): parts adjacent and in order, lengths (and capacity) add up, every element in its place, None only when empty; merge of adjacent parts restores the whole (address, length, elements) and merge of non-adjacent parts never returns. split_off (BumpBox<[T]> and FixedBumpVec incl. capacity arithmetic): for EVERY range of every length 3..6 the part is the range in order, the rest keeps its order, lengths/capacities add up, buffers disjoint and inside the original (concrete length and range, symbolic element values); BumpBox<str>::split_off at every boundary of two-character texts, FixedBumpString::split_off for every boundary range of three-character texts (contents, UTF-8 validity, capacities add up, buffers disjoint); partition (every element exactly once, predicate respected, parts adjacent), map_in_place (same and smaller layout) and into_flattened keep count and order (lengths 3, 4, 6). Independence of parts afterwards is an instance of the C01/C02/C13 contracts, which are proved (bounded) for ANY sub-block of the allocated region, not only for blocks an allocation call returned.",
+        note="BumpVec/BumpString::split_off (delegating to the fixed variants) are not separately under contract; split_off with a SYMBOLIC range is out of reach: CBMC did not finish slice::rotate_* within 10 minutes even for len 3 (measured); FixedBumpVec::split_off capacity arithmetic likewise.",
+        not_covered=["BumpVec/BumpString::split_off wrappers", "lengths above 6", "zero-sized elements", "follow-up operation sequences beyond the sub-block argument"],
     ),
     "C08": dict(
         level="other",
         technique="per-operation refinement contracts against std::vec::Vec from an arbitrary symbolic vector state (fixed buffer), checked by Kani",
-        claim="BumpBox<[T]> (remove, swap_remove, pop, truncate, clear, retain, dedup) and FixedBumpVec (try_push, try_insert, try_extend_from_slice_copy, try_resize, capacity, is_full) return the same values and leave the same contents/length as std::vec::Vec for every symbolic state with len<=4, capacity 5 and every in-range argument; capacity >= len; fixed vectors never change address/capacity and report an error when full keeping their contents; ZST capacity is usize::MAX. Because the precondition is 'any state', not 'a state built by the harness', this extends to operation sequences by induction.",
-        note="Bounded len<=4/cap 5, element type u8. BumpVec, MutBumpVec, MutBumpVecRev (growth paths), splice, extract_if, map, into_flattened, out-of-range panics are NOT covered.",
-        not_covered=["BumpVec / MutBumpVec / MutBumpVecRev and their growth / capacity promises", "drain (Kani leaves 23 checks UNDETERMINED: pointer offset_from on the drained range; harness kept unregistered)", "splice, extract_if, map(_in_place), extend_from_within, append, shrink_to_fit, into_* conversions", "panics on out-of-range arguments"],
+        claim="BumpBox<[T]> (remove, swap_remove, pop, truncate, clear, retain, dedup; drain for every range consumed from either end; split_off for every range; partition, map_in_place, into_flattened) and FixedBumpVec (try_push, try_insert / remove / swap_remove at every index, try_extend_from_slice_copy, try_extend_from_within_copy for every range, try_resize to every length, dedup_by_key, retain, split_off for every range incl. capacities, capacity, is_full) return the same values and leave the same contents/length as std::vec::Vec - for every symbolic state with len<=4 / capacity 5 (symbolic-shape obligations) or for every index and range of the concrete lengths 0..6 with symbolic element values (concrete-shape obligations); MutBumpVec / MutBumpVecRev push + into_slice (see C15); capacity >= len; fixed vectors never change address/capacity and report an error when full keeping their contents; ZST capacity is usize::MAX. Because the precondition is 'any state', not 'a state built by the harness', this extends to operation sequences by induction.",
+        note="Bounded: lengths <=6, element type u8. BumpVec (growth through Allocator::grow) is NOT covered - a harness over a real arena did not finish in 25 minutes; splice, extract_if contents, append, shrink_to_fit, out-of-range panics are not covered.",
+        not_covered=["BumpVec and its growth / capacity promises; MutBumpVec(Rev) beyond push/into_slice", "splice, extract_if (contents), append, shrink_to_fit, into_* conversions", "panics on out-of-range arguments"],
     ),
     "C06": dict(
         level="other",
         technique="drop-counting element type whose Drop asserts 'never twice'; per-operation contracts on BumpBox<[T]> and its iterators, checked by Kani for panic-free executions",
-        claim="For clear, truncate, remove, swap_remove, pop, retain, into_iter (consumed from both ends, then dropped) on a symbolic BumpBox<[Tok]> (len<=3): after the operation and after dropping every owner each element has been dropped exactly once, a removed value is not dropped before the caller drops it, and leak / into_raw drop nothing.",
-        note="Panic-free executions only: neither verifier has unwinding semantics, so every clause about a callback that panics mid-operation is out of reach. FixedBumpVec/BumpVec/MutBumpVec(Rev) wrappers, splice, extract_if, map_in_place, dedup, split_off, append, resize are not covered.",
-        not_covered=["every panic-injection clause", "growable vectors and their iterators; splice, extract_if, map, dedup, split_off, append, resize, extend", "zero-sized element types"],
+        claim="Drop-counting element type on BumpBox<[Tok]>: clear, truncate, remove, swap_remove, pop, retain, into_iter (both ends) with a symbolic length <=3; split_off (parts dropped in either order), drain consumed k elements then dropped, drain consumed from the back then keep_rest (kept elements in order), extract_if partially consumed, dedup_by for EVERY range of lengths 2..4: each element is dropped exactly once, a removed value is not dropped before the caller drops it, leak / into_raw drop nothing. Zero-sized element type with a counting Drop: drain / split_off / truncate / into_iter for every range of lengths 2,3,5: the number of drops equals the number of elements. One defect found by the zero-sized obligation and fixed (known_findings.txt).",
+        note="Panic-free executions only: neither verifier has unwinding semantics, so every clause about a callback that panics mid-operation is out of reach. Consumption of iterators over ZERO-SIZED elements cannot be exercised (CBMC reports a spurious memset precondition for mem::zeroed::<ZST>()). FixedBumpVec/BumpVec/MutBumpVec(Rev) wrappers, splice, map(_in_place), append, resize, extend are not covered. Kani leaves 23 internal side checks (ptr::offset_from on drained ranges) UNDETERMINED in the drain obligations; all contract clauses are decided.",
+        not_covered=["every panic-injection clause", "growable vectors and their iterators; splice, map, append, resize, extend", "consuming iterators over zero-sized elements"],
     ),
     "C09": dict(
         level="other",
